@@ -184,6 +184,11 @@ def design(chk: Check, pid: str, tier: str) -> None:
                            f'finished boards', GOOD, two, scr, 1, fault=f, invs=invs, props=[],
                       deadlock=False, simulate=None if not quick else 'num=10',
                       depth=900, workers=16)
+        # one board, every interleaving (the abort comes early: small state space)
+        one = script_for(*b0, weak, 1, r) if b0[1] == 0 else script_for(*b0, [35] * ((4 - b0[1]) % 4) + weak, 1, r)
+        for f in ([(1, 'auction', 2)] if quick else [(1, 'auction', 1), (1, 'auction', 2), (1, 'play', 3)]):
+            run_model(chk, f'Table: offence at board 1 {f[1]} #{f[2]}, every interleaving',
+                      GOOD, [b0], [one], 1, fault=f, invs=invs, props=[], deadlock=False, workers=16)
         run_model(chk, 'Table: operator interrupt at any queue read of the main thread',
                   GOOD, two, scr, 1, interrupts=True, invs=invs, props=[], deadlock=False,
                   simulate='num=8' if quick else 'num=300', depth=900, workers=16)
